@@ -355,3 +355,26 @@ func init() {
 	fire("C07", "share-in-whole-per-cent", cd, share, "\t\t\tcodonPercentage := 100 * codon.Weight / codonOccurenceSum\n${1}\t\t\tif codonPercentage > 10 {\n", "TERM-CHOOSER/eligible")
 	silent("C07", "share-in-per-cent", cd, share, "\t\t\tcodonPercentage := 100 * float64(codon.Weight) / float64(codonOccurenceSum)\n${1}\t\t\tif codonPercentage > 10 {\n")
 }
+
+// positive examples for the rules of rounds 24 and 25
+func init() {
+	gb := "io/genbank/genbank.go"
+	pj := "io/polyjson/polyjson.go"
+	pm := "primers/primers.go"
+	fire := func(prop, name, file, find, repl, expect string) {
+		addVariant(variant{Prop: prop, Name: name, File: file, Find: find, Replace: repl, Expect: expect})
+	}
+	silent := func(prop, name, file, find, repl string) {
+		addVariant(variant{Prop: prop, Name: name, File: file, Find: find, Replace: repl, Silent: true})
+	}
+	buildHead := `func Build\(sequence poly\.Sequence\) \[\]byte \{\n\tvar gbkString bytes\.Buffer\n`
+	fire("C03", "written-keyword-deleted-from-the-records-map", gb, buildHead, "func Build(sequence poly.Sequence) []byte {\n\tvar gbkString bytes.Buffer\n\tdelete(sequence.Meta.Other, \"DBLINK\")\n", "NOSHARED/Build")
+	relink := `\tfor _, feature := range legacyFeatures \{\n\t\tsequence\.AddFeature\(&feature\)\n`
+	fire("C15", "empty-qualifiers-deleted-while-reading", pj, relink, "\tfor _, feature := range legacyFeatures {\n\t\tfor key, value := range feature.Attributes {\n\t\t\tif value == \"\" {\n\t\t\t\tdelete(feature.Attributes, key)\n\t\t\t}\n\t\t}\n\t\tsequence.AddFeature(&feature)\n", "RELINK/Parse:decoded fields")
+	silent("C15", "qualifiers-counted-while-reading", pj, relink, "\tqualifiers := 0\n\tfor _, feature := range legacyFeatures {\n\t\tfor range feature.Attributes {\n\t\t\tqualifiers++\n\t\t}\n\t\tsequence.AddFeature(&feature)\n")
+	fire("C11", "palindrome-test-on-a-trimmed-copy", "checks/checks.go", `import "github.com/TimothyStiles/poly/transform"\n(?s)(.*?)\treturn sequence == transform\.ReverseComplement\(sequence\)\n`, "import (\n\t\"strings\"\n\n\t\"github.com/TimothyStiles/poly/transform\"\n)\n${1}\tsequence = strings.Trim(sequence, \"Nn\")\n\treturn sequence == transform.ReverseComplement(sequence)\n", "TERM/IsPalindromic")
+	last := `\tif sequence\[len\(sequence\)-1\] == 'A' \|\| sequence\[len\(sequence\)-1\] == 'T' \{\n`
+	fire("C19", "terminal-base-looked-up-with-index-above-zero", pm, last, "\tif strings.IndexByte(\"AT\", sequence[len(sequence)-1]) > 0 {\n", "STATE/first-member-missed")
+	silent("C19", "terminal-base-looked-up-with-index-from-zero", pm, last, "\tif strings.IndexByte(\"AT\", sequence[len(sequence)-1]) >= 0 {\n")
+	fire("C13", "name-taken-as-second-piece-of-the-header", "io/fasta/fasta.go", `\t\t\tname = line\[1:\]\n\t\t\tstart = false\n`, "\t\t\tname = strings.Split(line, \">\")[1]\n\t\t\tstart = false\n", "TERM/parser:name")
+}
